@@ -345,6 +345,9 @@ func TestC09(t *testing.T) {
 				}
 				ext := func(x build.Field) []uint64 {
 					max := uint64(1)<<(8*uint(x.Len)) - 1
+					if !ev.Thorough() {
+						return []uint64{0, max, max/2 + 1, uint64(len(sd.Data)-x.Off-x.Len) & max}
+					}
 					return []uint64{0, 1, max, max/2 + 1, uint64(len(sd.Data)-x.Off-x.Len) & max, 12}
 				}
 				for _, v1 := range ext(f) {
@@ -360,6 +363,43 @@ func TestC09(t *testing.T) {
 		}
 	}
 	ev.Class("field-pairs", nPairs)
+	// (a'') consistent huge values: field f is set to an extreme value V and the SAME delta is applied to one
+	// other field g anywhere in the file, so that two numbers that must agree (a total size and the end of the
+	// last element, an offset and a length) stay consistent while both become hostile
+	var nDelta int64
+	for _, sd := range all {
+		m := withEmbeddedICC(sd)
+		if len(sd.Data) > 40000 && !ev.Thorough() {
+			continue
+		}
+		for fi, f := range m.Fields {
+			if f.Kind == "type" || f.Len < 2 {
+				continue
+			}
+			cur := f.Get(sd.Data)
+			max := uint64(1)<<(8*uint(f.Len)) - 1
+			vals := []uint64{max, max - 3, max/2 + 1, max / 4, cur + 1<<20, cur + 1<<30}
+			if !ev.Thorough() {
+				vals = []uint64{max, cur + 1<<30}
+			}
+			for _, v := range vals {
+				v &= max
+				delta := v - cur
+				for gi, g := range m.Fields {
+					if gi == fi || g.Kind == "type" || g.Len < 2 {
+						continue
+					}
+					gmax := uint64(1)<<(8*uint(g.Len)) - 1
+					d := mut.Apply(sd.Data, m, []mut.Op{{Kind: "set", Field: fi, Value: v}, {Kind: "set", Field: gi, Value: (g.Get(sd.Data) + delta) & gmax}}, nil)
+					for _, target := range targetsFor(sd.Kind) {
+						rc.run(Case{Desc: fmt.Sprintf("%s: %s@%d=%#x and %s@%d shifted by the same delta", sd.Name, f.Name, f.Off, v, g.Name, g.Off), Target: target, Data: d}, true)
+						nDelta++
+					}
+				}
+			}
+		}
+	}
+	ev.Class("field-delta-pairs", nDelta)
 	// (c) truncations
 	var nTrunc int64
 	for _, sd := range all {
